@@ -327,6 +327,12 @@ func LoadState(ctx context.Context, repo gitstore.Storer, requestedEntry rsl.Ref
 		}
 	}
 
+	// Every policy state in the chain must be internally consistent, not just
+	// the requested one
+	if err := initialPolicyState.Verify(ctx); err != nil {
+		return nil, fmt.Errorf("initial policy state has invalidly signed metadata: %w", err)
+	}
+
 	verifiedState := initialPolicyState
 	for _, entry := range allPolicyEntries[1:] {
 		if entry.GetRefName() != PolicyRef {
@@ -343,6 +349,10 @@ func LoadState(ctx context.Context, repo gitstore.Storer, requestedEntry rsl.Ref
 		slog.Debug(fmt.Sprintf("Verifying root of trust for policy '%s'...", entry.GetID().String()))
 		if err := verifiedState.VerifyNewState(ctx, underTestState); err != nil {
 			return nil, fmt.Errorf("unable to verify roots of trust for policy states: %w", err)
+		}
+
+		if err := underTestState.Verify(ctx); err != nil {
+			return nil, fmt.Errorf("policy state has invalidly signed metadata: %w", err)
 		}
 
 		verifiedState = underTestState
